@@ -168,8 +168,26 @@ func (r *Report) Eval(canonical string, nontrivial bool) {
 	}
 }
 func (r *Report) Count(key string) { r.Hist[key]++ }
+// Add stores a case. Failures (violations, disagreements) and known findings have separate budgets, so that
+// any number of known cases can never crowd a failure out of the report: at most 200 failures are kept, and at
+// most 8 known cases per key (200 known cases overall); harnesses count every known case in their histograms.
 func (r *Report) Add(c Case) {
-	if len(r.Cases) < 200 {
+	if c.Kind == "known" {
+		nk, nkey := 0, 0
+		for _, x := range r.Cases {
+			if x.Kind == "known" {
+				nk++
+				if x.Key == c.Key {
+					nkey++
+				}
+			}
+		}
+		if nk < 200 && nkey < 8 {
+			r.Cases = append(r.Cases, c)
+		}
+		return
+	}
+	if r.Failures() < 200 {
 		r.Cases = append(r.Cases, c)
 	}
 }
